@@ -42,6 +42,8 @@ def dispatch (f : List String) : String :=
   | ["s.bigstr", b, a] => sBigStr b a
   | ["s.bigparse", b, t] => sBigParse b t
   | ["m.repl", s] => replOp s
+  | ["m.clirun", l, pa, e, src, i] => cliRunOp l pa e src i
+  | ["m.clicheck", pa, fn, e, src] => cliCheckOp pa fn e src
   | ["m.debug", pa, fn, src, sc] => debugOp pa fn src sc
   | ["m.opt", l, p] => optOp l p
   | ["m.exec", "run1", p, i, _] => runOptOp "1" p i
